@@ -16,7 +16,7 @@ from .store_sim import OracleFailure, StoreSim
 
 REFUSAL_KINDS = ['missing_input', 'wrong_input_suffix', 'wrong_output_suffix', 'existing_output',
                  'both_list_and_pattern', 'pattern_without_range', 'differing_fieldsets',
-                 'mixed_identification', 'duplicate_basename']
+                 'mixed_identification', 'duplicate_basename', 'pattern_missing_index']
 
 
 # --------------------------------------------------------------------- helpers
@@ -171,6 +171,18 @@ def op_merge_refused(self: StoreSim, op):
         bad_kwargs['input_stores_index_range'] = (0, 1)
     elif kind == 'pattern_without_range':
         bad_kwargs = dict(input_stores_pattern=self.path('g0_{index}.nc'))
+    elif kind == 'pattern_missing_index':
+        # a numbered range with a hole (one index has no file): refused, not silently shortened
+        pat = op.get('pattern')
+        if not pat:
+            return None
+        want = [pat['pattern'].format(index=i) for i in range(pat['lo'], pat['hi'] + 1)]
+        if want != [os.path.relpath(p_, self.sandbox) for p_ in good_paths]:
+            return None
+        bad_kwargs = dict(input_stores_pattern=self.path(pat['pattern']),
+                          input_stores_index_range=(pat['lo'], pat['hi'] + 1))
+        if os.path.exists(self.path(pat['pattern'].format(index=pat['hi'] + 1))):
+            return None
     elif kind in ('differing_fieldsets', 'mixed_identification'):
         extra = self.files.get(op.get('extra', ''))
         if extra is None or not extra.exists or extra.open_by is not None or extra.where or extra in good:
@@ -408,7 +420,8 @@ def gen_merge_faulted(gen):
     gen.nmerged += 1
     op = {'op': 'merge_sweep', 'out': f'm{gen.nmerged}.aeic-store', 'inputs': [f.name for f in chosen],
           'crash_seed': rng.randint(0, 10 ** 9)}
-    idxs = [int(f.name.split('_')[1].split('.')[0]) for f in chosen]
-    if idxs == list(range(idxs[0], idxs[0] + len(idxs))) and rng.random() < 0.4:
+    idxs = [int(os.path.basename(f.name).split('_')[1].split('.')[0]) for f in chosen]
+    if idxs == list(range(idxs[0], idxs[0] + len(idxs))) and rng.random() < 0.4 \
+            and not gen.groups[gid].get('subdirs'):
         op['pattern'] = {'pattern': f'g{gid}_{{index}}.nc', 'lo': idxs[0], 'hi': idxs[-1]}
     return op
